@@ -108,45 +108,7 @@ func runC18(c *an.Ctx) {
 			an.NE("len("+hT+")", "0"), an.LE("len("+hT+")", "p3.Amount"),
 		}})
 	}
-	remaining := "(-len(" + hT + ")+p3.Amount)"
-	nRem := 0
-	for _, ss := range selectSends(s.doReq) {
-		if !isRecvField(dt, ss.Chan, "reqCh") || dt.Of(ss.Val) == "p3" {
-			continue
-		}
-		nRem++
-		// value = prepareRequests(a0,a1,a2)[0]
-		okShape := false
-		detail := dt.Of(ss.Val)
-		if u, ok := ss.Val.(*ssa.UnOp); ok {
-			if ia, ok := u.X.(*ssa.IndexAddr); ok && dt.Of(ia.Index) == "0" {
-				if call, ok := ia.X.(*ssa.Call); ok && an.StaticCallee(&call.Call) == s.prep {
-					a := call.Call.Args
-					wantOrigin := "(Height(" + hT + "[(len(" + hT + ")-1)])+1)"
-					detail = fmt.Sprintf("prepareRequests(%s, %s, %s)[0]", dt.Of(a[0]), dt.Of(a[1]), dt.Of(a[2]))
-					okShape = dt.Of(a[0]) == wantOrigin && dt.Of(a[1]) == remaining && dt.Of(a[2]) == "p3.Amount"
-				}
-			}
-		}
-		fs := df.AtRefined(ss.Sel.Block())
-		c.Check(okShape && fs.Has(an.NE(remaining, "0")) && fs.Has(an.EQ(eT, "nil")), "C18.b", "remainder-request",
-			"a short answer enqueues exactly the remainder: origin = last received height + 1, amount = req.Amount − len(h), only when that amount is non-zero", s.doReq, ss.Sel, detail, fs)
-		// what was received is still delivered
-		selIdx := dt.Of(ss.Sel) + "#0"
-		okDel, bad := (an.Flow{Fn: s.doReq}).MustFollow(ss.Sel, func(in ssa.Instruction) bool {
-			sd, ok := in.(*ssa.Send)
-			return ok && dt.Of(sd.Chan) == "p4"
-		}, func(r *ssa.Return) bool { return df.AtInstr(r).Has(an.EQ(selIdx, "0")) })
-		c.Check(okDel, "C18.b", "partial-still-delivered", "after re-requesting the remainder the received headers are still delivered (unless the session was closed)", s.doReq, ss.Sel, fmt.Sprint(bad), nil)
-	}
-	c.Min("C18.b", "remainder re-request sites", nRem, 1)
-	// when nothing remains, no remainder request is made
-	prZero := df.Prune(an.EQ(remaining, "0"))
-	for _, ss := range selectSends(s.doReq) {
-		if isRecvField(dt, ss.Chan, "reqCh") && dt.Of(ss.Val) != "p3" {
-			c.Check(!prZero.Reachable(ss.Sel.Block()), "C18.b", "no-remainder-when-complete", "a complete answer does not trigger another request", s.doReq, ss.Sel, "", nil)
-		}
-	}
+	checkRemainderRequest(c, "C18.b", s)
 
 	// --- C18.c splitting arithmetic
 	pt, pf := c.T(s.prep), c.F(s.prep)
